@@ -41,6 +41,9 @@ struct Shared {
     tcp_frames: Vec<Vec<(u64, Vec<u8>)>>,
     tcp_done: Vec<Option<String>>,
     handed_at: Vec<Vec<u64>>,
+    /// latest instant by which erbium can have had the complete query (TCP: after the last
+    /// segment was written plus one link latency)
+    arrived_hi: Vec<u64>,
     bad_forwarded: Vec<String>,
     next_serial: u32,
 }
@@ -338,7 +341,7 @@ async fn client_tcp(k: Arc<Kernel>, plan: Arc<PlanB>, sh: Sh, qi: usize, bytes: 
     if off < frame.len() {
         let _ = s.write_all(&frame[off..]).await;
     }
-    sh.lock().unwrap().handed_at.len();
+    sh.lock().unwrap().arrived_hi[qi] = k.now_ns() + plan.lat_max_us * 1000 + 2_000_000;
     /* read whole frames until the server closes or the budget runs out */
     let deadline = Instant::now() + Duration::from_secs(900);
     loop {
@@ -423,7 +426,7 @@ pub async fn run_async(plan: Arc<PlanB>, opts: &ExecB) -> RunResult {
     crate::interpose::arm(plan.seed, plan.wall_base, plan.qid_bits);
     let t0 = Instant::now();
     let nq = plan.queries.len();
-    let sh: Sh = Arc::new(Mutex::new(Shared { seen: vec![vec![]; nq], tcp_frames: vec![vec![]; nq], tcp_done: vec![None; nq], handed_at: vec![vec![]; nq], ..Default::default() }));
+    let sh: Sh = Arc::new(Mutex::new(Shared { seen: vec![vec![]; nq], tcp_frames: vec![vec![]; nq], tcp_done: vec![None; nq], handed_at: vec![vec![]; nq], arrived_hi: vec![0; nq], ..Default::default() }));
 
     /* upstream actors */
     for (ui, ip) in plan.upstreams.iter().enumerate() {
@@ -565,6 +568,50 @@ fn evaluate(plan: &PlanB, kernel: &Arc<Kernel>, sh: &Sh, sent_at_ns: &[u64], _en
     let mut key_count: HashMap<(String, u16, u16), usize> = HashMap::new();
     for q in &plan.queries {
         *key_count.entry(key_of(q)).or_insert(0) += 1;
+    }
+    /* fault kinds that actually fired: upstream behaviours on exchanges an upstream took part in */
+    for (qi, q) in plan.queries.iter().enumerate() {
+        if g.seen[qi].is_empty() {
+            continue;
+        }
+        let name = match &q.up {
+            UpBehaviour::Normal { delay_ms } if *delay_ms <= 250 => None,
+            UpBehaviour::Normal { .. } => Some("upstream.slow"),
+            UpBehaviour::Silent => Some("upstream.silent"),
+            UpBehaviour::AnswerFrom { .. } => Some("upstream.first_transmissions_lost"),
+            UpBehaviour::Dup { .. } => Some("upstream.duplicate_reply"),
+            UpBehaviour::WrongId => Some("upstream.wrong_id_reply"),
+            UpBehaviour::Tc => Some("upstream.truncated_udp_reply"),
+            UpBehaviour::Garbage => Some("upstream.garbage_reply"),
+            UpBehaviour::Unreachable => Some("upstream.icmp_unreachable"),
+            UpBehaviour::Hostile { .. } => Some("upstream.hostile_reply"),
+        };
+        if let Some(n) = name {
+            *res.faults.entry(n.into()).or_insert(0) += 1;
+        }
+        if g.seen[qi].iter().any(|s| s.2) {
+            let t = match &q.up_tcp {
+                UpTcp::Normal => None,
+                UpTcp::OneByte => Some("upstream_tcp.one_octet_segments"),
+                UpTcp::Reset => Some("upstream_tcp.reset"),
+                UpTcp::Close => Some("upstream_tcp.close_without_answer"),
+                UpTcp::Stall => Some("upstream_tcp.stall"),
+                UpTcp::UnknownIdFirst => Some("upstream_tcp.unknown_id_reply"),
+                UpTcp::Twice => Some("upstream_tcp.duplicate_reply"),
+                UpTcp::Slow { .. } => Some("upstream_tcp.slow"),
+            };
+            if let Some(n) = t {
+                *res.faults.entry(n.into()).or_insert(0) += 1;
+            }
+        }
+    }
+    for m in &plan.upstream_tcp {
+        if m != "accept" {
+            *res.faults.entry(format!("upstream_tcp.{}", m)).or_insert(0) += 1;
+        }
+    }
+    if plan.qid_bits < 16 {
+        *res.faults.entry("low_entropy_query_ids".into()).or_insert(0) += 1;
     }
     for (qi, q) in plan.queries.iter().enumerate() {
         if q.raw.is_some() || q.flood {
@@ -799,15 +846,18 @@ fn evaluate(plan: &PlanB, kernel: &Arc<Kernel>, sh: &Sh, sent_at_ns: &[u64], _en
                     // ---- C06
                     let mut age: u32 = 0;
                     let mut age_lo: u32 = 0;
+                    /* the query reached erbium between the instant it was sent and (TCP) the
+                     * delivery of its last segment */
+                    let arrive_hi = if q.tcp { g.arrived_hi[qi].max(sent_at_ns[qi]) } else { sent_at_ns[qi] };
                     if maybe_cache && !from_cache {
-                        age = ((sent_at_ns[qi] - rep.handed_ns) / 1_000_000_000) as u32;
+                        age = ((arrive_hi - rep.handed_ns) / 1_000_000_000) as u32;
                     }
                     if from_cache {
                         res.probe("C06.served_from_cache");
                         let d_ns = sent_at_ns[qi] - rep.handed_hi_ns;
                         age_lo = (d_ns / 1_000_000_000) as u32;
                         let min_ttl = um.answer.iter().chain(um.authority.iter()).chain(um.additional.iter()).filter(|r| r.rtype != T_OPT).map(|r| r.ttl).min().unwrap_or(0);
-                        age = ((sent_at_ns[qi] - rep.handed_ns) / 1_000_000_000) as u32;
+                        age = ((arrive_hi - rep.handed_ns) / 1_000_000_000) as u32;
                         if d_ns > min_ttl as u64 * 1_000_000_000 {
                             res.violate("C06", "C06.stale_entry_served", format!("reply #{} (min TTL {} s) was obtained at {} ns and served from cache at {} ns ({} ns later)", rep.serial, min_ttl, rep.handed_ns, sent_at_ns[qi], d_ns), qi);
                         }
